@@ -104,6 +104,9 @@ def formulation_settings(name: str, p: dict, equilibrium: bool = False) -> dict:
         return {"main_mda_name": mda["main"], "main_mda_settings": main}
     if name == "IDF":
         out = {"normalize_constraints": p["normalize"]}
+        if p.get("idf_n_processes", 1) > 1:
+            out["n_processes"] = p["idf_n_processes"]
+            out["use_threading"] = True
         if equilibrium:
             out["start_at_equilibrium"] = True
             out["mda_chain_settings_for_start_at_equilibrium"] = dict(MDA_SETTINGS)
@@ -168,6 +171,18 @@ def close(ctx, got: np.ndarray, ref: np.ndarray, tol: float, oracle: str, label:
     err = float(np.max(np.abs(got - ref), initial=0.0))
     if not err <= tol * scale:  # also catches NaN
         ctx.fail(oracle, f"{label}: differs from the closed form by {err:.3e} > {tol * scale:.1e}", got=got, expected=ref, **info)
+
+
+def consistency_outputs(constraint) -> list[str]:
+    """The couplings covered by a consistency constraint, in the order of its components.
+
+    A constraint linearised by the formulation (disciplines declaring linear relationships) is an MDOLinearFunction
+    without output names, called "<coupling>_<coupling>..._linearized" (generated coupling names hold no underscore).
+    """
+    outs = list(constraint.output_names)
+    if not outs and constraint.name.endswith("_linearized"):
+        outs = constraint.name[: -len("_linearized")].split("_")
+    return outs
 
 
 def vector(names: list[str], values: dict) -> np.ndarray:
@@ -312,7 +327,23 @@ def _case_pointwise(p, ctx):
                 inside = np.all(sol[e["name"]] >= np.array(e["lo"])) and np.all(sol[e["name"]] <= np.array(e["hi"]))
                 if not inside:
                     raise AssertionError("generator: coupled solution outside the coupling bounds")
-    defaults = {**p["x"], **p["start"]}
+    # the disciplines' own defaults differ from the design point: the formulations must take the design-space values
+    defaults = {**p.get("x_default", p["x"]), **p["start"]}
+    declare_linear = bool(p.get("declare_linear")) and model.linear
+    n_proc = p.get("idf_n_processes", 1)
+
+    def new_disciplines():
+        built = build_disciplines(model, defaults, p["grammar"])
+        if declare_linear:  # documented way to let the formulations build linear functions (is_linear branches)
+            for d in built:
+                d.io.set_linear_relationships()
+        return built
+
+    if declare_linear:
+        ctx.cls("linear_relationships_declared")
+    ctx.cls(f"idf_n_processes={n_proc}")
+    if any(not np.array_equal(defaults[n], p["x"][n]) for n in model.x_names):
+        ctx.cls("discipline_defaults_differ_from_design_point")
     ds_values = {**p["x"], **{n: p["start"][n] for n in couplings}}
     fns = _functions(p, model)
     dims = [sum(sizes[o] for o in outs) for _, outs, _ in fns]
@@ -344,7 +375,7 @@ def _case_pointwise(p, ctx):
     mdf_entries = [e for e in p["ds"] if e["name"] not in model.producer or e["name"] in keep]
     if keep:
         ctx.cls("mdf_given_couplings")
-    discs = build_disciplines(model, defaults, p["grammar"])
+    discs = new_disciplines()
     mdf, _ = build_formulation("MDF", discs, p["objective"], build_space(mdf_entries, sizes, ds_values), p, via,
                                p["constraints"], p["maximize"])
     mdf_names = check_names(ctx, ref, mdf, [e["name"] for e in mdf_entries], "mdf", "MDF")
@@ -372,7 +403,7 @@ def _case_pointwise(p, ctx):
                 mdf_jac_at_x1.append(jac)
 
     # ------------------------------------------------------------------ IDF
-    discs = build_disciplines(model, defaults, p["grammar"])
+    discs = new_disciplines()
     idf, _ = build_formulation("IDF", discs, p["objective"], build_space(p["ds"], sizes, ds_values), p, via, p["constraints"],
                                p["maximize"])
     idf_names = check_names(ctx, ref, idf, user_names, "idf", "IDF")
@@ -389,8 +420,10 @@ def _case_pointwise(p, ctx):
     consistency = list(problem.constraints)[:n_cons]
     idf_fns = [problem.objective, *list(problem.constraints)[n_cons:]]
     seen = []
+    cons_outputs = []
     for c in consistency:
-        outs = list(c.output_names)
+        outs = consistency_outputs(c)
+        cons_outputs.append(outs)
         ctx.check(bool(outs) and all(o in couplings for o in outs) and len({model.producer[o] for o in outs}) == 1, "functions",
                   f"IDF consistency constraint {c.name} covers {outs}")
         i = model.producer[outs[0]]
@@ -421,8 +454,7 @@ def _case_pointwise(p, ctx):
                       f"IDF {label} at {tag} against f(x, y*(x))")
             got.append(jac)
         cons_jacs = []
-        for c in consistency:
-            outs = list(c.output_names)
+        for c, outs in zip(consistency, cons_outputs):
             dim = sum(sizes[o] for o in outs)
             val, jac = evaluate(ctx, c, vec, dim, jac_first, f"IDF consistency {'+'.join(outs)} at {tag}")
             if consistent:
@@ -466,7 +498,7 @@ def _case_pointwise(p, ctx):
     if p["missing"] is not None and couplings:
         dropped = couplings[p["missing"] % len(couplings)]
         entries = [e for e in p["ds"] if e["name"] != dropped]
-        discs = build_disciplines(model, defaults, p["grammar"])
+        discs = new_disciplines()
         try:
             build_formulation("IDF", discs, p["objective"], build_space(entries, sizes, ds_values), p, via, [], False)
         except ValueError:
@@ -474,7 +506,7 @@ def _case_pointwise(p, ctx):
         else:
             ctx.fail("idf_requires_couplings", f"IDF accepted a design space without the coupling {dropped}")
     if p["equilibrium"] and couplings:
-        discs = build_disciplines(model, defaults, p["grammar"])
+        discs = new_disciplines()
         eq, _ = build_formulation("IDF", discs, p["objective"], build_space(p["ds"], sizes, ds_values), p, via, [], False, equilibrium=True)
         current = eq.design_space.get_current_value(as_dict=True)
         for n in model.x_names:
@@ -487,7 +519,7 @@ def _case_pointwise(p, ctx):
     # ------------------------------------------------------------------ DisciplinaryOpt on acyclic systems
     if acyclic:
         order = topological_order(model)
-        all_discs = build_disciplines(model, defaults, p["grammar"])
+        all_discs = new_disciplines()
         discs = [all_discs[i] for i in order]
         dopt, _ = build_formulation("DisciplinaryOpt", discs, p["objective"], build_space(mdf_entries, sizes, ds_values), p, via,
                                     p["constraints"], p["maximize"])
